@@ -12,7 +12,9 @@ COQ_IMPORTS = ('From CPL Require Import Model.Base Model.Rules Model.Evolve2D Mo
 NONTRIVIAL_RULE = ('non-trivial = the call returned an array and at least one cell changed during the evolution '
                    '(a toppling or a grain addition happened); distinct = distinct case dicts')
 EXHAUSTIVE = {'quick': False, 'thorough': False}
-NOTES = ['all 36 shapes 1x1..6x6 in both boundary modes; 1x1, 1x2, 2x1 grids swept over {0,3,4,5,9}^cells',
+NOTES = ['grains/twodigit/*: grids 13x13..24x15 with scheduled cells whose decimal digits concatenate like those of '
+         'another cell ((1,11)/(11,1), (1,12)/(11,2), (2,11)/(21,1), (12,1)/(1,21), ...), compared with the model in Coq',
+         'all 36 shapes 1x1..6x6 in both boundary modes; 1x1, 1x2, 2x1 grids swept over {0,3,4,5,9}^cells',
          'closed-mode streams with NON-zero boundary cells, additions on a toppling configuration, additions on '
          'closed boundary cells, negative counts and constructor sizes different from the grid are outside the '
          'premise of the property text and are compared against the model only (the model covers them)',
@@ -200,6 +202,56 @@ def generate(rng, tier):
                           dtype=rng.choice(['int64', 'uint8']))
                 c.update(op='reuse', init2=g2 if rng.random() < 0.7 else g1, T2=T2)
                 yield c
+    # grids with TWO-DIGIT coordinates (13x13 .. 24x15, square and not): a schedule keyed by a textual form of the
+    # cell without a separator confuses (1, 11) with (11, 1), (1, 12) with (11, 2), (2, 11) with (21, 1), ...
+    # Stable sparse heights (the property's premise), T = 2..3, several grains in the same and in different steps.
+    for c in _twodigit(rng, 1 if tier == 'quick' else 4):
+        yield c
+
+
+_COLLIDING = [((1, 11), (11, 1)), ((1, 12), (11, 2)), ((2, 11), (21, 1)), ((12, 1), (1, 21)), ((1, 10), (11, 0)),
+              ((2, 13), (21, 3)), ((12, 3), (1, 23)), ((11, 11), (1, 111)), ((1, 13), (11, 3)), ((12, 2), (1, 22)), ((2, 12), (21, 2))]
+_BIG_SHAPES = [(13, 13), (13, 14), (14, 13), (13, 24), (24, 13), (24, 15), (15, 24), (23, 23)]
+
+
+def _sparse(rng, R, C, closed):
+    g = [[rng.choice([0, 0, 0, 1, 2, 3]) for _ in range(C)] for _ in range(R)]
+    return _zero_boundary(g) if closed else g
+
+
+def _twodigit(rng, reps):
+    for _ in range(reps):
+        for (R, C) in _BIG_SHAPES:
+            shp = '%dx%d' % (R, C)
+            for closed in (False, True):
+                mode = 'closed' if closed else 'open'
+
+                def ok(cell):
+                    return cell[0] < R and cell[1] < C and not (closed and _is_boundary(R, C, cell[0], cell[1]))
+                # every scheduled cell usable on this grid, from either side of a colliding pair; prefer the pairs
+                # whose partner is a cell of the grid that is not held at 0
+                sides = [(a, b) for (x, y) in _COLLIDING for (a, b) in ((x, y), (y, x)) if ok(a)]
+                live = [(a, b) for (a, b) in sides if ok(b)] or sides
+                rng.shuffle(live)
+                for (a, b) in live[:3]:
+                    T = rng.randint(2, 3)
+                    g = _sparse(rng, R, C, closed)
+                    g[a[0]][a[1]] = rng.randint(0, 2)
+                    yield _case('grains/twodigit/collide/%s/%s' % (mode, shp), g, closed, T,
+                                [(a[0], a[1], rng.randint(1, T - 1))])
+                # several grains: two colliding-side cells in the SAME step, one random two-digit cell in another
+                cells2 = [(i, j) for i in range(R) for j in range(C) if (i >= 10 or j >= 10) and ok((i, j))]
+                picks = [a for (a, _) in live[:2]] + [rng.choice(cells2)]
+                adds = [(picks[0][0], picks[0][1], 1), (picks[-1][0], picks[-1][1], 2)]
+                if len(picks) > 2 and picks[1] != picks[0]:
+                    adds.insert(1, (picks[1][0], picks[1][1], 1))
+                yield _case('grains/twodigit/several/%s/%s' % (mode, shp), _sparse(rng, R, C, closed), closed, 3, adds,
+                            nbhd=rng.choice(['von Neumann', 'Moore']))
+                # random two-digit cells, one to three grains, random steps
+                T = rng.randint(2, 3)
+                k = rng.randint(1, 3)
+                yield _case('grains/twodigit/random/%s/%s' % (mode, shp), _sparse(rng, R, C, closed), closed, T,
+                            [rng.choice(cells2) + (rng.randint(1, T - 1),) for _ in range(k)])
 
 
 # ---------------------------------------------------------------- the implementation
